@@ -90,7 +90,7 @@ ALL = {
 }
 
 # properties whose quick check currently exits 0 on the unchanged tree
-ENABLED = ["C01", "C03", "C08", "C10", "C11", "C12", "C14", "C15", "C17", "C19", "C20"]
+ENABLED = ["C01", "C03", "C04", "C08", "C10", "C11", "C12", "C14", "C15", "C17", "C19", "C20"]
 
 CLAIMED = {k: v for k, v in ALL.items() if k in ENABLED}
 
